@@ -823,6 +823,9 @@ func (t *http2Client) NewStream(ctx context.Context, callHdr *CallHdr, handler s
 		}
 		// The stream was unprocessed by the server.
 		s.unprocessed.Store(true)
+		// Record why the stream ended: a stream that is done with a nil status
+		// is indistinguishable from one that ended successfully.
+		s.status = status.New(codes.Unavailable, err.Error())
 		s.write(recvMsg{err: err})
 		close(s.done)
 		// If headerChan isn't closed, then close it.
